@@ -10,6 +10,8 @@ configuration object / docutils settings are deep-equal before and after every m
 
 from __future__ import annotations
 
+import shutil
+import os
 import typing
 import copy
 import io
@@ -317,6 +319,13 @@ def eval_value(ctx, case):
                     exp_d = list(val)
                 if not same(getattr(dcfg, name), exp_d) and not (name in LISTSTR and list(getattr(dcfg, name)) == list(exp_d)):
                     ctx.violation(f"entry:docutils-string:differs:{name}", f"{flag}={s!r} gives {getattr(dcfg, name)!r}, the constructor gives {exp!r}", case, detail)
+                fr = conf_file_route(name, s)
+                if fr is not None:
+                    ctx.count("docutils_conf_file_strings_checked")
+                    if not fr[0]:
+                        ctx.violation(f"entry:docutils-conf-file:acceptance:{name}", f"myst_{name}: {s} in a docutils.conf is rejected, {flag}={s!r} on the command line is accepted", case, detail)
+                    elif not same(getattr(fr[1], name), getattr(dcfg, name)):
+                        ctx.violation(f"entry:docutils-conf-file:differs:{name}", f"myst_{name}: {s} in a docutils.conf gives {getattr(fr[1], name)!r}, the command line gives {getattr(dcfg, name)!r}", case, detail)
             ctx.count("docutils_strings_compared")
     # --- Sphinx conf value
     if "sphinx" not in fld.metadata.get("omit", []):
@@ -572,6 +581,38 @@ DOCUTILS_DICT_STRINGS = ["false", "no", "off", "0", "0.0", "[]", "''", "~", "nul
 DOCUTILS_INT_STRINGS = ["x", "1.5", "", "-1", "0", "1", "7", "8", "200", " 3", "nan", "1e1", "true", "None", "0x2"]
 
 
+def conf_file_route(name, s):
+    """-> (accepted, config or None) for ``myst_<name>: <s>`` written into a docutils.conf ([myst parser] section, read through $DOCUTILSCONFIG);
+    None when the string cannot be written on one configuration line."""
+    import contextlib
+    import tempfile
+
+    from docutils import frontend
+
+    from myst_parser.parsers.docutils_ import Parser, create_myst_config
+
+    if not (s == s.strip() and s and "\n" not in s and s[0] not in "#;[" and "%" not in s):
+        return None
+    d = tempfile.mkdtemp(prefix="c13conf_")
+    old_env = os.environ.get("DOCUTILSCONFIG")
+    try:
+        with open(os.path.join(d, "docutils.conf"), "w", encoding="utf8") as f:
+            f.write(f"[myst parser]\nmyst_{name}: {s}\n")
+        os.environ["DOCUTILSCONFIG"] = os.path.join(d, "docutils.conf")
+        try:
+            with contextlib.redirect_stderr(io.StringIO()):
+                fsettings = frontend.OptionParser(components=(Parser,), read_config_files=True).get_default_values()
+                return True, create_myst_config(fsettings)
+        except (Exception, SystemExit):  # noqa: BLE001
+            return False, None
+    finally:
+        if old_env is None:
+            os.environ.pop("DOCUTILSCONFIG", None)
+        else:
+            os.environ["DOCUTILSCONFIG"] = old_env
+        shutil.rmtree(d, ignore_errors=True)
+
+
 def eval_docutils_string_acceptance(ctx, case):
     """Option STRINGS of the docutils entry point (command line / docutils.conf): a string is accepted exactly when it spells - by the documented
     deserialisation (a YAML dictionary, an integer) - a value the constructor accepts, and then it yields the constructor's configuration."""
@@ -609,6 +650,15 @@ def eval_docutils_string_acceptance(ctx, case):
         got = True
     except (Exception, SystemExit):  # noqa: BLE001
         got, dcfg = False, None
+    # the same string written into a docutils.conf: same acceptance, same configuration
+    fr = conf_file_route(name, s)
+    if fr is not None:
+        fgot, fcfg = fr
+        ctx.count("docutils_conf_file_strings_checked")
+        if fgot != got:
+            ctx.violation(f"entry:docutils-conf-file:acceptance:{name}", f"myst_{name}: {s} in a docutils.conf is {'accepted' if fgot else 'rejected'}, {flag}={s!r} on the command line is {'accepted' if got else 'rejected'}", case, {"flag": flag, "string": s})
+        elif fgot and not same(getattr(fcfg, name), getattr(dcfg, name)):
+            ctx.violation(f"entry:docutils-conf-file:differs:{name}", f"myst_{name}: {s} in a docutils.conf gives {getattr(fcfg, name)!r}, the command line gives {getattr(dcfg, name)!r}", case, {"flag": flag, "string": s})
     ctx.count("docutils_string_acceptance_checked")
     ctx.count("docutils_string_acceptance:" + ("accepted" if got else "rejected"))
     detail = {"flag": flag, "string": s, "deserialised": repr(pyv), "constructor_accepts": want}
